@@ -1,6 +1,6 @@
 (* Property C05 - glob and plain patterns: whole-name match, right dispatch,
    inert fast-reject.  Statements only. *)
-Require Import PV.Base PV.Dec PV.Dewey PV.DeweyPat PV.Pattern PV.AltSpec PV.GlobProofs PV.PatternProofs PV.AltProofs.
+Require Import PV.Base PV.Dec PV.Dewey PV.DeweyPat PV.Pattern PV.AltSpec PV.GlobProofs PV.GlobString PV.PatternProofs PV.AltProofs.
 Require Import Coq.Strings.String.
 Import Coq.Lists.List ListNotations.
 Local Open Scope N_scope.
@@ -9,6 +9,27 @@ Local Open Scope N_scope.
    relation gmatch ('*' any run, '?' one character, sets, literals) *)
 Theorem C05_glob_correct : forall ts s, no_rec ts -> (glob_matches ts s = true <-> gmatch ts s).
 Proof. exact glob_matches_correct. Qed.
+
+(* ... and, on the pattern *string*: a string without '**' compiles exactly
+   when every '[' opens a closed non-empty bracket expression (swf), the
+   compiled pattern matches exactly the names the string denotes as a shell
+   glob (sglob: '*' any run, '?' one character, [set] / [!set], anything else
+   itself), and a malformed string is reported *)
+Theorem C05_glob_string : forall p, nodstar p = true ->
+  (swf p /\ exists ts, glob_new p = Val ts /\ no_rec ts /\ forall name, glob_matches ts name = true <-> sglob p name)
+  \/ (~ swf p /\ glob_new p = Fail ERange).
+Proof. exact glob_string_spec. Qed.
+(* bracket bodies: a-b is a range, any other character stands for itself *)
+Theorem C05_set_range : forall c a b r, in_body c (a :: 45 :: b :: r) = ((a <=? c) && (c <=? b) || in_body c r)%bool.
+Proof. exact in_body_range. Qed.
+Theorem C05_set_single : forall c a r, (match r with m :: _ :: _ => m <> 45 | _ => True end) ->
+  in_body c (a :: r) = ((c =? a) || in_body c r)%bool.
+Proof. exact in_body_single. Qed.
+(* end to end through Pattern::new and Pattern::matches, fast reject included *)
+Theorem C05_glob_pattern_meaning : forall p pkg, no_brace p -> no_op p -> has_meta p -> nodstar p = true ->
+  (swf p /\ exists b, pm p pkg = MBool b /\ (b = true <-> sglob p pkg)) \/
+  (~ swf p /\ pm p pkg = MErr EGlob).
+Proof. exact glob_pattern_meaning. Qed.
 
 (* dispatch: no braces, no comparison operator, some metacharacter -> glob *)
 Theorem C05_dispatch_glob : forall p pkg, no_brace p -> no_op p -> has_meta p ->
@@ -40,3 +61,20 @@ Example C05_example_glob :
   pm (lit "foo-[0-9") (lit "foo-1") = MErr EGlob /\
   pm (lit "a") (lit "") = MBool false /\ pm (lit "?") (lit "a") = MBool true.
 Proof. vm_compute. repeat split. Qed.
+
+(* the string relation is inhabited and discriminates: mutt-[0-9]* *)
+Example C05_example_string :
+  sglob (lit "a[!b-d]?*") (lit "aex12") /\ swf (lit "mutt-[0-9]*") /\ ~ swf (lit "foo-[0-9") /\
+  nodstar (lit "mutt-[0-9]*") = true.
+Proof.
+  split; [|split; [|split]].
+  - change (lit "a[!b-d]?*") with (97 :: 91 :: 33 :: 98 :: [45; 100] ++ 93 :: 63 :: 42 :: []).
+    change (lit "aex12") with (97 :: 101 :: 120 :: [49; 50] ++ []).
+    apply sg_char; try discriminate. apply sg_notin; [reflexivity|reflexivity|].
+    apply sg_q. apply sg_star. apply sg_nil.
+  - change (lit "mutt-[0-9]*") with (109 :: 117 :: 116 :: 116 :: 45 :: 91 :: 48 :: [45; 57] ++ 93 :: 42 :: []).
+    do 5 (apply wf_char; [discriminate|discriminate|discriminate|]). apply wf_in; [discriminate|reflexivity|]. apply wf_star, wf_nil.
+  - intros W.
+    destruct (glob_string_spec (lit "foo-[0-9") eq_refl) as [(_ & ts & E & _)|(W' & _)]; [vm_compute in E; discriminate|auto].
+  - reflexivity.
+Qed.
